@@ -1,6 +1,7 @@
 package main
 
 import (
+	"go/constant"
 	"fmt"
 	"go/ast"
 	"go/types"
@@ -187,5 +188,81 @@ func (u *Universe) groundNonEmptyGlobal(pkgRel, name string, props []string) Fra
 	}
 	r.OK = n >= 1 && !written
 	r.Detail = fmt.Sprintf("%s is initialised with %d elements; assigned elsewhere: %v", name, n, written)
+	return r
+}
+
+// groundGlobalStrings: a package-level []string is initialised by a literal
+// that contains every wanted element, is never assigned elsewhere, and is
+// spread into an append call by each of the listed functions.
+func (u *Universe) groundGlobalStrings(name string, want []string, users []string, props []string) FrameResult {
+	r := FrameResult{Name: "ground:init-" + name, Props: props, Backend: "ground"}
+	p := u.mainPkg()
+	if p == nil {
+		r.Detail = "package not loaded"
+		return r
+	}
+	obj := p.Types.Scope().Lookup(name)
+	if obj == nil {
+		r.Detail = "variable not found"
+		return r
+	}
+	have := map[string]bool{}
+	written := false
+	usedBy := map[string]bool{}
+	for _, f := range p.Syntax {
+		for _, d := range f.Decls {
+			fd, _ := d.(*ast.FuncDecl)
+			ast.Inspect(d, func(nd ast.Node) bool {
+				switch nd := nd.(type) {
+				case *ast.ValueSpec:
+					for i, id := range nd.Names {
+						if p.TypesInfo.Defs[id] == obj && i < len(nd.Values) {
+							if cl, ok := nd.Values[i].(*ast.CompositeLit); ok {
+								for _, el := range cl.Elts {
+									if tv, ok := p.TypesInfo.Types[el]; ok && tv.Value != nil {
+										have[constant.StringVal(tv.Value)] = true
+									}
+								}
+							}
+						}
+					}
+				case *ast.AssignStmt:
+					for _, l := range nd.Lhs {
+						if id, ok := ast.Unparen(l).(*ast.Ident); ok && p.TypesInfo.ObjectOf(id) == obj {
+							written = true
+						}
+						if ix, ok := ast.Unparen(l).(*ast.IndexExpr); ok {
+							if id, ok := ast.Unparen(ix.X).(*ast.Ident); ok && p.TypesInfo.ObjectOf(id) == obj {
+								written = true
+							}
+						}
+					}
+				case *ast.CallExpr:
+					if id, ok := ast.Unparen(nd.Fun).(*ast.Ident); ok && id.Name == "append" && nd.Ellipsis.IsValid() && fd != nil {
+						if a, ok := ast.Unparen(nd.Args[len(nd.Args)-1]).(*ast.Ident); ok && p.TypesInfo.ObjectOf(a) == obj {
+							usedBy[fd.Name.Name] = true
+						}
+					}
+				}
+				return true
+			})
+		}
+	}
+	var missing []string
+	for _, w := range want {
+		if !have[w] {
+			missing = append(missing, "element "+w)
+		}
+	}
+	for _, f := range users {
+		if !usedBy[f] {
+			missing = append(missing, "not spread into an append in "+f)
+		}
+	}
+	r.OK = len(missing) == 0 && !written
+	r.Detail = fmt.Sprintf("%s holds %v; assigned elsewhere: %v; spread into append by %v; missing: %v", name, sortStrings(have), written, sortStrings(usedBy), missing)
+	if !r.OK {
+		r.Witness = strings.Join(missing, "; ")
+	}
 	return r
 }
